@@ -44,6 +44,19 @@ class Ctx:
         self.bodies_touched.add(nkey)
         return b
 
+    def closure(self, parent, callee, rule, what=None):
+        """The unique closure inside fn `parent` that directly calls `callee` (selected by role, not by `{closure#n}`)."""
+        from engine import kinds
+        cs = kinds.closures_calling(self.prog, parent, callee)
+        if len(cs) != 1:
+            name = what or (callee if isinstance(callee, str) else "the given role")
+            self.ob(rule, "anchor|closure of %s calling %s" % (parent, name), False,
+                    "anchor lost: %d closures inside `%s` call `%s` — rule not established" % (len(cs), parent, name), nontrivial=False)
+            raise AnchorLost(parent)
+        self.anchors.append(cs[0].nkey)
+        self.bodies_touched.add(cs[0].nkey)
+        return cs[0]
+
     def floor(self, rule, what, count, floor):
         ok = count >= floor
         self.ob(rule, "floor|" + what, ok,
@@ -171,6 +184,8 @@ def run_property(prop, tier, configs=None):
             "configurations": per_config,
             "anchors_resolved": sorted(set(a for c in ctxs for a in c.anchors)),
             "samples": samples[:60],
+            "obligation_list": [{"key": o["key"], "holds": o["ok"], "where": o["loc"], "what": (o["desc"] or "")[:240], "config": o.get("config")}
+                                for o in all_obs],
             "known_findings_matched": sorted(known_hit),
             "not_decided": getattr(mod, "NOT_DECIDED", ""),
             "exhaustive": False,
